@@ -19,6 +19,8 @@ pub enum REv {
     Silent,
     /// nothing arrives for this many milliseconds of (virtual) time
     Delay(u64),
+    /// this one call fails with `ErrorKind::Interrupted`; the stream itself stays usable
+    Interrupted,
     Until(tokio::time::Instant),
 }
 
@@ -91,6 +93,7 @@ pub fn parse_revs(s: &str) -> Option<Vec<REv>> {
                 _ if t.starts_with("d:") => REv::Data(crate::util::unhex(&t[2..])?),
                 _ if t.starts_with("w:") => REv::WaitWritten(t[2..].parse().ok()?),
                 _ if t.starts_with("t:") => REv::Delay(t[2..].parse().ok()?),
+                "i" => REv::Interrupted,
                 _ => return None,
             })
         })
@@ -137,6 +140,9 @@ impl AsyncRead for Scripted {
                 Some(REv::Fail) => {
                     s.rd.push_front(REv::Fail);
                     return Poll::Ready(Err(std::io::Error::new(std::io::ErrorKind::ConnectionReset, "scripted reset")));
+                }
+                Some(REv::Interrupted) => {
+                    return Poll::Ready(Err(std::io::Error::new(std::io::ErrorKind::Interrupted, "scripted EINTR")));
                 }
                 Some(REv::Silent) => {
                     s.rd.push_front(REv::Silent);
